@@ -1,0 +1,114 @@
+//go:build verif
+
+// Verification hook (build tag verif) for C08, second file: the store-side select of verif_export_c08.go with the
+// statement's batch size as a parameter (the store cuts the rows of a series into pieces of that many rows; the
+// operator-level harness of the aggregate cursors runs every statement under several piece sizes). Thin wrapper, no
+// behaviour of its own.
+package engine
+
+import (
+	"context"
+	"fmt"
+	"strings"
+
+	"github.com/openGemini/openGemini/engine/executor"
+	"github.com/openGemini/openGemini/engine/hybridqp"
+	"github.com/openGemini/openGemini/lib/util/lifted/influx/influxql"
+	"github.com/openGemini/openGemini/lib/util/lifted/influx/query"
+)
+
+// VerifSelectPipelineOpt is VerifSelectPipeline with the batch size of the statement (ProcessorOptions.ChunkSize, the
+// inner_chunk_size of a request) chosen by the caller; it also returns the reader's output expressions, column by column.
+func (v *VerifShard) VerifSelectPipelineOpt(sql string, fields map[string]influxql.DataType, dims []string, chunkSize int) ([]VerifAggRow, []string, bool, error) {
+	p := influxql.NewParser(strings.NewReader(sql))
+	defer p.Release()
+	st, err := p.ParseStatement()
+	if err != nil {
+		return nil, nil, false, err
+	}
+	stmt, ok := st.(*influxql.SelectStatement)
+	if !ok {
+		return nil, nil, false, fmt.Errorf("not a select statement")
+	}
+	mapper := &verifMapper{fields: fields, dims: dims}
+	if stmt, err = stmt.RewriteFields(mapper, true, false); err != nil {
+		return nil, nil, false, err
+	}
+	stmt.OmitTime = true
+	valuer := &influxql.NowValuer{Location: stmt.Location}
+	cond, tr, err := influxql.ConditionExpr(stmt.Condition, valuer)
+	if err != nil {
+		return nil, nil, false, err
+	}
+	stmt.Condition = cond
+	opt, err := query.NewProcessorOptionsStmt(stmt, query.SelectOptions{ChunkSize: chunkSize})
+	if err != nil {
+		return nil, nil, false, err
+	}
+	if err = hybridqp.VerifyHintStmt(stmt, &opt); err != nil {
+		return nil, nil, false, err
+	}
+	mst, ok := stmt.Sources[0].(*influxql.Measurement)
+	if !ok {
+		return nil, nil, false, fmt.Errorf("source is not a measurement")
+	}
+	opt.Name = mst.Name
+	opt.Sources = stmt.Sources
+	opt.StartTime = tr.MinTimeNano()
+	opt.EndTime = tr.MaxTimeNano()
+	qs := executor.NewQuerySchemaWithSources(stmt.Fields, stmt.Sources, stmt.ColumnNames(), &opt, nil)
+
+	ctx := context.Background()
+	idx, err := v.sh.CreateCursor(ctx, qs)
+	if err != nil || idx == nil {
+		return nil, nil, false, err
+	}
+	defer idx.Unref()
+	var keyCursors []interface{}
+	for _, cur := range idx.GetCursors() {
+		keyCursors = append(keyCursors, cur)
+	}
+	builder := executor.NewLogicalPlanBuilderImpl(qs)
+	seriesPlan, err := builder.CreateSeriesPlan()
+	if err != nil {
+		return nil, nil, false, err
+	}
+	mstPlan, err := builder.CreateMeasurementPlan(seriesPlan)
+	if err != nil {
+		return nil, nil, false, err
+	}
+	var lr *executor.LogicalReader
+	for n := mstPlan; n != nil; {
+		if r, ok := n.(*executor.LogicalReader); ok {
+			lr = r
+			break
+		}
+		if len(n.Children()) == 0 {
+			break
+		}
+		n = n.Children()[0]
+	}
+	if lr == nil {
+		return nil, nil, false, fmt.Errorf("no LogicalReader in the measurement plan")
+	}
+	lr.SetCursor(keyCursors)
+	proc, err := (&ChunkReader{}).Create(lr, &opt)
+	if err != nil {
+		return nil, nil, false, err
+	}
+	reader := proc.(*ChunkReader)
+	var refs []influxql.VarRef
+	var exprs []string
+	for _, op := range lr.RowExprOptions() {
+		refs = append(refs, op.Ref)
+		exprs = append(exprs, op.Expr.String())
+	}
+	sink := &verifC08Sink{in: executor.NewChunkPort(lr.RowDataType()), refs: refs}
+	reader.GetOutputs()[0].Connect(sink.in)
+	exec := executor.NewPipelineExecutor(executor.Processors{reader, sink})
+	err = exec.Execute(ctx)
+	sink.mu.Lock()
+	rows := sink.rows
+	sink.mu.Unlock()
+	return rows, exprs, exec.Crashed(), err
+}
